@@ -733,6 +733,19 @@ impl<'a, F: Float, K: 'a + Permutable<F>> SolverState<'a, F, K> {
         if nfree > 0 {
             sum_free / F::cast(nfree)
         } else {
+            Self::threshold_between(lb, ub)
+        }
+    }
+
+    /// Threshold for a group of variables without a free one: the midpoint of the interval
+    /// `[lb, ub]` the margin conditions leave, or its finite end when only one side is pinned
+    /// (e.g. every variable at its upper bound)
+    fn threshold_between(lb: F, ub: F) -> F {
+        if lb.is_finite() && !ub.is_finite() {
+            lb
+        } else if ub.is_finite() && !lb.is_finite() {
+            ub
+        } else {
             (ub + lb) / F::cast(2.0)
         }
     }
@@ -770,12 +783,12 @@ impl<'a, F: Float, K: 'a + Permutable<F>> SolverState<'a, F, K> {
         let r1 = if nfree1 > 0 {
             sum_free1 / F::cast(nfree1)
         } else {
-            (ub1 + lb1) / F::cast(2.0)
+            Self::threshold_between(lb1, ub1)
         };
         let r2 = if nfree2 > 0 {
             sum_free2 / F::cast(nfree2)
         } else {
-            (ub2 + lb2) / F::cast(2.0)
+            Self::threshold_between(lb2, ub2)
         };
 
         self.r = (r1 + r2) / F::cast(2.0);
